@@ -7,7 +7,7 @@ from typing import Any, Dict, List, Optional, Tuple
 
 from aas_core_codegen.xsd import main as xsd_main
 
-from vf.common import REPO, assume, fail, realize, untraced
+from vf.common import REPO, assume, fail, pin_int, realize, untraced
 import harness.C02 as c02
 import harness.C15 as c15
 
@@ -58,12 +58,13 @@ def facets_of(xsd_text: str, group: str, element: str, kind: str) -> Tuple[int, 
     raise AssertionError(f"element {group}/{element} not found in the XSD")
 
 
-def check_facets(name: str, ops: List[int], orders: List[bool], consts: List[Any], n: Any, direction: str) -> str:
+def check_facets(name: str, ops: List[int], orders: List[bool], consts: List[Any], n: Any, direction: str, lo: int = 0,
+                 hi: int = 5) -> str:
     # The XSD generator serializes and re-parses XML (expat): symbolic values cannot pass through it.  The bounded
     # constants and the probe are therefore realized first -- the solver ENUMERATES them (finite family, stated) -- and
     # the real generator runs concretely on each combination.
-    consts = [realize(c) for c in consts]
-    n = realize(n)
+    consts = [pin_int(c, lo, hi) for c in consts]
+    n = pin_int(n, 0, hi + 1)
     return untraced(_check_facets_concrete, name, ops, orders, consts, n, direction)
 
 
@@ -115,7 +116,7 @@ def make_harness(params: Dict[str, Any], direction: Optional[str] = None):
                 else:
                     orders.append(True if orders_in[i] else False)
         assume(0 <= n <= params["hi"] + 1)
-        return check_facets(name, fixed_ops, orders, consts, n, direction)
+        return check_facets(name, fixed_ops, orders, consts, n, direction, params["lo"], params["hi"])
 
     return harness
 
@@ -130,8 +131,8 @@ def shards(tier: str) -> List[Dict[str, Any]]:
             combos = [c for c in combos if c in ([0, 0, 0], [0, 2, 4], [4, 4, 0], [2, 0, 4], [4, 2, 2], [0, 4, 4])]
         for ops in combos:
             out.append({"name": f"facets:{name},ops=" + " ".join(c15.OP_NAMES[o] for o in ops[:k]),
-                        "params": {"template": name, "slots": k, "ops": ops, "lo": 0, "hi": 2 if tier == "quick" else 5,
-                                   "fixed_orders": tier == "quick"},
+                        "params": {"template": name, "slots": k, "ops": ops, "lo": 0, "hi": 3 if tier == "quick" else 6,
+                                   "fixed_orders": False},
                         "budget_s": 150 if tier == "quick" else 1500, "per_path_timeout": 60})
     return out
 
@@ -263,7 +264,7 @@ def describe(tier: str, direction: Optional[str] = None) -> Dict[str, Any]:
                   "_translate_pattern output is read by a strict XML Schema regex reader and compared with CPython's reading of the original by "
                   "z3 for ALL strings of XML characters without line breaks up to length 4 (thorough 7): "
                   + ("L(pattern) subset of L(xsd)" if direction == "never-rejects-valid" else "L(xsd) subset of L(pattern)") +
-                  ". Facets: the C15 templates with comparison constants in [0, 2] (thorough [0, 5], both operand orders): minLength / maxLength / minOccurs / maxOccurs "
+                  ". Facets: the C15 templates with comparison constants in [0, 3] (thorough [0, 6]), both operand orders: minLength / maxLength / minOccurs / maxOccurs "
                   "read from the REAL generated XSD vs. the conjunction of the invariants for a symbolic length",
         "outside": "validity of the XSD as a whole and validation of whole documents (needs an XSD validator / an XML parser on a symbolic "
                    "document: not encodable, see DESIGN.md); unknown / misplaced / missing elements (C14's last clause); \\d \\w \\s \\p{..}",
